@@ -27,7 +27,7 @@ func zzH_C03() {
 	isPing := make([]bool, K)
 	for i := 0; i < K; i++ {
 		i := i
-		isPing[i] = vChoose("kind", 2) == 1
+		isPing[i] = vParam("c03.pings", 1) == 1 && vChoose("kind", 2) == 1
 		vGo("caller", func() {
 			if isPing[i] {
 				errs[i] = conn.Ping()
